@@ -234,6 +234,22 @@ def ite(c, a, b):
         return c
     if a is FALSE and b is TRUE:
         return b_not(c)
+    # boolean ite with one constant arm is a connective (short-circuit && / ||)
+    if a is TRUE:
+        return b_or(c, b)
+    if b is FALSE:
+        return b_and(c, a)
+    if a is FALSE:
+        return b_and(b_not(c), b)
+    if b is TRUE:
+        return b_or(b_not(c), a)
+    # ite(c, all-ones, 0) is the lane mask of c
+    if is_const(a) and is_const(b) and csize(a) == csize(b) and csize(a) in (1, 2, 4, 8) and not (csize(a) == 1 and cbits(a) <= 1 and cbits(b) <= 1):
+        ones = (1 << (8 * csize(a))) - 1
+        if cbits(a) == ones and cbits(b) == 0:
+            return mask(c, csize(a))
+        if cbits(a) == 0 and cbits(b) == ones:
+            return mask(b_not(c), csize(a))
     # ite(c, ite(c, x, y), z) = ite(c, x, z)
     if a.op == 'ite' and a.args[0] is c:
         a = a.args[1]
@@ -353,6 +369,8 @@ def bits_of(t, n):
 
 
 def mk_bits(bs):
+    if len(bs) in (8, 16, 32, 64) and all(b is bs[0] for b in bs) and bs[0] is not TRUE and bs[0] is not FALSE:
+        return mask(bs[0], len(bs) // 8)
     if all(b is TRUE or b is FALSE for b in bs):
         v = 0
         for i, b in enumerate(bs):
@@ -550,6 +568,9 @@ def iun(op, ty, a):
         if op == 'not':
             return const(_wrap(~x, bits), bits // 8)
     if op == 'not':
+        m = mask_bool(a)
+        if m is not None and a.op in ('m8', 'm16', 'm32', 'm64'):
+            return mask(b_not(m), bits // 8)
         ba = bits_of(a, bits) if a.op in ('bits', 'b2i') else None
         if ba is not None:
             return mk_bits([b_not(x) for x in ba])
